@@ -187,6 +187,24 @@ def run(tier="quick", seed=0):
         last["case"] = (w, h, torus, base_dead, dl, dc, nets_spec, radius, sd, variant)
         dead_links = base_dead | dl if dl else base_dead
         machine = Machine(w, h, dead_chips=set(dc), dead_links=set((x, y, LINK[d]) for (x, y, d) in dead_links))
+        if st.get("edited_in_place"):
+            # the SAME Machine object, first without the extra faults, asked about its links and routed on once, then edited in
+            # place (machine.dead_links.add(...), machine.dead_chips.add(...)) to the state under test: the routes that follow
+            # must respect the machine as it is NOW
+            machine = Machine(w, h, dead_links=set((x, y, LINK[d]) for (x, y, d) in base_dead))
+            list(machine.iter_links())
+            any((x, y, l) in machine for x in range(w) for y in range(h) for l in LINK.values())
+            try:
+                from rig.netlist import Net as _Net
+                live0 = [(x, y) for x in range(w) for y in range(h)]
+                route({"a": {Cores: 1}, "b": {Cores: 1}}, [_Net("a", ["b"])], machine, [], {"a": live0[0], "b": live0[-1]},
+                      {"a": {Cores: slice(0, 1)}, "b": {Cores: slice(0, 1)}}, Cores, radius)
+            except Exception:       # noqa  (judged when it is the route under test)
+                pass
+            for (x, y, d) in dl:
+                machine.dead_links.add((x, y, LINK[d]))
+            for c in dc:
+                machine.dead_chips.add(c)
         placements, allocations, constraints, vr = {}, {}, [], {}
         nets, exps, descs = [], [], []
         for ni, (src, sinks, dup) in enumerate(nets_spec):
@@ -428,6 +446,26 @@ def run(tier="quick", seed=0):
             done_random += 1
             st["nontrivial"] += 1
 
+        # ======================= (v) one Machine object edited in place ===============================
+        st["edited_in_place"] = True
+        try:
+            for (w, h), torus in (((4, 4), True), ((5, 5), True), ((2, 1), True), ((3, 3), False), ((4, 2), False)):
+                chips = [(x, y) for x in range(w) for y in range(h)]
+                base_dead = frozenset() if torus else frozenset(_mesh_dead(w, h))
+                all_links = [(x, y, d) for (x, y) in chips for d in DV if (x, y, d) not in base_dead]
+                for rep in range(12 if not thorough else 120):
+                    src = rng.choice(chips)
+                    sinks = [rng.choice(chips) for _ in range(rng.randint(1, 3))]
+                    dl = frozenset(rng.sample(all_links, min(len(all_links), rng.randint(1, 3)))) if rep % 3 != 2 else frozenset()
+                    others = [c for c in chips if c != src and c not in sinks]
+                    dc = frozenset(rng.sample(others, 1)) if (rep % 3 and others) else frozenset()
+                    if rep % 4 == 0:        # the links the fault-free route leaves the source by
+                        dl = frozenset((src[0], src[1], d) for d in DV if (src[0], src[1], d) not in base_dead and rng.random() < .5)
+                    evaluate(w, h, torus, base_dead, dl, dc, [(src, sinks, 0)], rng.choice([0, 1, 20]), rng.randint(0, 10 ** 6), rep % 4)
+                    done_random += 1
+        finally:
+            st["edited_in_place"] = False
+
         # ======================= (iv) many different radii in one process ============================
         # (the router memoises its search pattern per radius in module-level state: a sweep over radii - downwards, upwards,
         #  shuffled - must route every time as it does for a radius seen first)
@@ -492,7 +530,7 @@ def run(tier="quick", seed=0):
                     "the source as its own sink; sink flavours one core / two cores / RouteEndpointConstraint / no allocation rotate); radius 0,1,20; random.seed values %s; "
                     "fault families relative to the fault-free tree T of the same (net, radius, seed): L1 every single dead directed link with an end on a chip of T, C1 every single "
                     "dead chip hosting no vertex, CL every dead chip on T + one near dead link, L2 every pair of dead near links with >= 1 on T, L3 every triple with >= 2 on T; %s. "
-                    "(ii) %d seeded cases: machines up to 6x6, 1-3 nets of fan-out 1..9, directed dead-link density 0..85%%, 0-3 dead chips, radius 0/1/2/20; of these the last %d are large nets with a small radius (radius 1 on 6x6 / 7x5 / 8x8, radius 2 on 9x9 / 10x8 / 12x7, radius 3 on 12x12 / 13x11, mesh and torus, every fifth with 1-4 dead links): first a blob of sinks around the source large enough (3 x |search disc| + 1 .. + 9 chips) that the concentric-hexagon search for the nearest tree node is the branch taken, then 2-6 groups of late sinks outside it: a far chip, a chip one to three hops from it, and the chips in between; and three nets each routed with every radius 20..0, 0..20 and 0..30 shuffled in one process (the search pattern is memoised per radius in module-level state). "
+                    "(ii) %d seeded cases: machines up to 6x6, 1-3 nets of fan-out 1..9, directed dead-link density 0..85%%, 0-3 dead chips, radius 0/1/2/20; of these the last %d are large nets with a small radius (radius 1 on 6x6 / 7x5 / 8x8, radius 2 on 9x9 / 10x8 / 12x7, radius 3 on 12x12 / 13x11, mesh and torus, every fifth with 1-4 dead links): first a blob of sinks around the source large enough (3 x |search disc| + 1 .. + 9 chips) that the concentric-hexagon search for the nearest tree node is the branch taken, then 2-6 groups of late sinks outside it: a far chip, a chip one to three hops from it, and the chips in between; and three nets each routed with every radius 20..0, 0..20 and 0..30 shuffled in one process (the search pattern is memoised per radius in module-level state); and 5 machines x 12 (120) cases in which ONE Machine object is queried and routed on fault-free and then edited in place (dead_links.add / dead_chips.add) to the faults under test. "
                     "Non-trivial = the tree has at least one hop and (faulted systematic cases) a fault lies on T or the family is CL/L2/L3 / (sample) any fault present; "
                     "systematic cases are distinct by construction, sampled cases de-duplicated by hash. One representative failing input per clause is minimised greedily "
                     "(drop nets, sinks, dead chips, dead links while the clause persists). "
